@@ -28,10 +28,63 @@ ASSUME = [
 ]
 
 TIERS = {
-    #            safety cfg               sim traces  lanes  sim procs
-    "quick":    ("Scheduler_quick.cfg",    1600,       8,     2),
-    "thorough": ("Scheduler_thorough.cfg", 24000,      16,    6),
+    #            safety cfg               sim traces  lanes  sim procs  environment moves of the systematic part
+    "quick":    ("Scheduler_quick.cfg",    1600,       8,     2,         3),
+    "thorough": ("Scheduler_thorough.cfg", 24000,      16,    6,         4),
 }
+
+
+def enumerate_all(sc, moves):
+    """TLC breadth-first over SchedulerEnum: every behaviour with `moves` environment moves, one JSON file each."""
+    out = sc.sub("enumerated")
+    d = V._spec_copy(sc, "Scheduler")
+    cfg = open(os.path.join(d, "SchedulerEnum.cfg")).read().replace("MaxMoves = 3", "MaxMoves = %d" % moves)
+    with open(os.path.join(d, "SchedulerEnumK.cfg"), "w") as f:
+        f.write(cfg)
+    meta = tempfile.mkdtemp(prefix="meta-", dir=sc.dir)
+    env = dict(os.environ)
+    env.setdefault("JAVA_TOOL_OPTIONS", "-Xmx3g -XX:ParallelGCThreads=2")
+    env["OUT_DIR"] = out
+    t = time.time()
+    with V.tlc_slots(1):
+        r = subprocess.run(["timeout", "1500", "tlc", "-workers", "1", "-metadir", meta, "-config", "SchedulerEnumK.cfg", "SchedulerEnum.tla"],
+                           cwd=d, env=env, capture_output=True, text=True)
+    shutil.rmtree(meta, ignore_errors=True)
+    txt = r.stdout + r.stderr
+    if r.returncode == 137 or "OutOfMemoryError" in txt:
+        raise V.Broken("TLC enumeration ran out of memory / was killed")
+    if r.returncode == 124 or "Error:" in txt or "Model checking completed" not in txt:
+        raise V.Broken("TLC enumeration of SchedulerEnum failed:\n" + V._tail(txt, 60))
+    m = None
+    for m in V._RE_STATES.finditer(txt):
+        pass
+    got = len(glob.glob(os.path.join(out, "*.json")))
+    if got == 0:
+        raise V.Broken("TLC enumeration produced no behaviours")
+    V.log("enumeration: %d behaviours with %d environment moves in %.1fs" % (got, moves, time.time() - t))
+    return out, got, (int(m.group(1)), int(m.group(2))) if m else (0, 0)
+
+
+def replay_real(sc, R, tier, seed, beh, lanes, outname, extra_args):
+    out, meta = V.run_driver(sc, "c17", tier, seed, args=["beh=" + beh, "lanes=%d" % lanes] + extra_args, timeout=2400, outname=outname)
+    ex = meta.get("extra", {})
+    part = "systematic" if "systematic" in extra_args else "random"
+    meta["extra"] = {part + "_part": ex}
+    R.add_meta(meta)
+    return meta, ex
+
+
+def validate(sc, R, metas):
+    files = [f for meta, _ in metas for f in meta["trace_files"]]
+    val = V.validate_traces(sc, "Scheduler", "SchedulerTraceMC.tla", "SchedulerTrace.cfg", files, timeout=2400)
+    R.states += val["states"]
+    R.handle_validation(val)
+    for _, ex in metas:
+        if ex.get("behaviours_skipped_after_too_many_cut_short", 0) and val["accepted"]:
+            # the replayer lost step with the code again and again, yet nothing it recorded is wrong: the Impl model
+            # (timer, s.when, worker hand-over) or the harness no longer matches the code.  Not a verdict.
+            raise V.Broken("replayer lost step with the scheduler in %d behaviours (%s) without any rejected trace: Impl model / harness drift"
+                           % (ex.get("behaviours_cut_short_by_a_benign_race_or_deviation", 0), ex.get("cut_short_at")))
 
 
 def simulate(sc, n, seed, procs):
@@ -97,10 +150,33 @@ def selftest(sc, trace_file):
     V.log("self-test: corrupted occurrence at line %d rejected" % (k + 1))
 
 
+def selftest(sc, trace_file):
+    """The binding must bite: one recorded field of a real trace is corrupted (an execution claims the occurrence
+    after the one that was due) and the trace specification has to reject exactly that line."""
+    lines = open(trace_file).read().splitlines()[:400]
+    ends = [i for i, ln in enumerate(lines) if '"ev":"End"' in ln]
+    starts = [i for i, ln in enumerate(lines) if '"ev":"ExecStart"' in ln and (not ends or i < ends[-1])]
+    if not ends or len(starts) < 2:
+        raise V.Broken("self-test: the first trace file has no complete trace with two executions")
+    lines = lines[:ends[-1] + 1]
+    k = starts[1]
+    ev = json.loads(lines[k])
+    ev["occ"] += 1
+    lines[k] = json.dumps(ev, separators=(",", ":"))
+    fp = os.path.join(sc.sub("selftest"), "corrupted.ndjson")
+    with open(fp, "w") as f:
+        f.write("\n".join(lines) + "\n")
+    val = V.validate_traces(sc, "Scheduler", "SchedulerTraceMC.tla", "SchedulerTrace.cfg", [fp], parallel=1)
+    rej = [ln for _, ln, _ in val["rejections"]]
+    if rej != [k + 1]:
+        raise V.Broken("self-test: a trace with a corrupted occurrence (line %d) was not rejected there (rejections: %s)" % (k + 1, rej))
+    V.log("self-test: corrupted occurrence at line %d rejected" % (k + 1))
+
+
 def run(sc, tier, seed):
     R = V.Result("C17", tier, seed)
     V.build_harness()
-    cfg, ntraces, lanes, procs = TIERS[tier]
+    cfg, ntraces, lanes, procs, moves = TIERS[tier]
     # ---- design level ----
     R.add_model(V.model_check(sc, "Scheduler", "SchedulerMC.tla", cfg, workers=8 if tier == "quick" else 16, timeout=1700))
     R.add_model(V.model_check(sc, "Scheduler", "SchedulerMC.tla", "Scheduler_live.cfg", workers=4, timeout=1700))
@@ -108,18 +184,23 @@ def run(sc, tier, seed):
     for name, inv in (("Scheduler_obs_rerun.cfg", "NeverRerunAcrossEpochs"), ("Scheduler_obs_ckpt.cfg", "CheckpointNeverGoesBack")):
         res = V.model_check(sc, "Scheduler", "SchedulerMC.tla", name, workers=4, timeout=600, expect_violation=[inv])
         obs[inv] = "fails in the model (stronger than the per-epoch reading; observation only)" if res["violated"] else "holds within the bounds"
-    # ---- binding: TLC behaviours replayed on the real scheduler, traces validated by TLC ----
+    # ---- binding 1: every behaviour with `moves` environment moves over the small alphabet ----
+    ebeh, nenum, (egen, edist) = enumerate_all(sc, moves)
+    R.states += edist
+    R.transitions += egen
+    m1 = replay_real(sc, R, tier, seed, ebeh, 4, "drv-c17-enum", ["systematic", "race=0"])
+    # ---- binding 2: seeded random longer behaviours (tlc -simulate), a quarter of them replayed in race mode ----
     beh, nbeh = simulate(sc, ntraces, seed, procs)
-    out, meta = V.run_driver(sc, "c17", tier, seed, args=["beh=" + beh, "lanes=%d" % lanes], timeout=2400)
-    R.add_meta(meta)
+    m2 = replay_real(sc, R, tier, seed, beh, lanes, "drv-c17-sim", [])
+    meta = m2[0]
+    # ---- TLC decides every recorded execution ----
+    validate(sc, R, [m1, m2])
     selftest(sc, meta["trace_files"][0])
-    val = V.validate_traces(sc, "Scheduler", "SchedulerTraceMC.tla", "SchedulerTrace.cfg", meta["trace_files"], timeout=2400)
-    R.states += val["states"]
-    R.handle_validation(val)
-    reruns = meta.get("extra", {}).get("observation_occurrence_reruns_across_epochs", 0)
+    reruns = meta["extra"]["random_part"].get("observation_occurrence_reruns_across_epochs", 0)
     if reruns:
         V.log("OBSERVATION property=C17: %d occurrence(s) were executed again after a re-Schedule (allowed by the per-epoch reading)" % reruns)
-    return R.finish("model_checking", ASSUME, extra_cov={"stronger_readings": obs, "behaviours_generated": nbeh})
+    return R.finish("model_checking", ASSUME, extra_cov={"stronger_readings": obs, "behaviours_generated_by_simulation": nbeh,
+                                                          "behaviours_enumerated_systematically": nenum, "systematic_environment_moves": moves})
 
 
 def replay(sc, path):
